@@ -140,3 +140,8 @@ Definition vic_obs (c : list (text * val) * list stmt) : N * text :=
   | RErr => (1, [])
   | RFuel => (2, [])
   end.
+
+From Vicut Require Import Model.Motions.
+(** the cursor after a counted motion *)
+Definition motion_obs (c : text * motion * nat * nat) : N :=
+  let '(t, m, count, i) := c in N.of_nat (move t m count i).
